@@ -1,5 +1,6 @@
 import ExecModel.Proofs.SysLiveBasic
 import ExecModel.Proofs.SysCancel
+import ExecModel.Proofs.SysFits
 set_option linter.unusedSimpArgs false
 set_option linter.unusedVariables false
 namespace ExecModel.Sys
@@ -615,10 +616,10 @@ theorem pg_priv_worker_done (hnf : NoFail eval) {s : State Val Err} (hI : LiveIn
 
 /-! ### the dispatcher is never stuck in `_wait_for_free_slots` -/
 
-theorem pg_no_waitSlots (hnf : NoFail eval) (hres : WfRes cfg) {s : State Val Err} (hI : LiveInv cfg s)
+theorem pg_no_waitSlots (hnf : NoFail eval) {s : State Val Err} (hfit : FitHyp cfg s) (hI : LiveInv cfg s)
     (hA : pg_Aux cfg s) (hst : Stuck cfg eval cancelErr s) {i : Nat} {vs : List Val} {req : Nat}
     (hd : s.disp = some (.waitSlots i vs req)) : False := by
-  rcases pg_disp_stuck cfg eval cancelErr hI hA hst hd with h | ⟨i', vs', req', he, hfit, hnd⟩ | ⟨t, ts, he, -⟩ | h | h
+  rcases pg_disp_stuck cfg eval cancelErr hI hA hst hd with h | ⟨i', vs', req', he, hnofit, hnd⟩ | ⟨t, ts, he, -⟩ | h | h
   · cases h.1
   · cases he
     cases hact : s.active with
@@ -629,15 +630,18 @@ theorem pg_no_waitSlots (hnf : NoFail eval) (hres : WfRes cfg) {s : State Val Er
         have := hI.tokenState
         simp only [tokenStateOk, Bool.and_eq_true, hd] at this
         exact this.1.1.2
-      have hlt : i < cfg.calls.length := by
-        rw [← (pg_len cfg hI).1]
-        apply lt_of_futOf_ne_absent
+      have hna : futOf s i ≠ .absent := by
         rcases pg_futPre_cases hp with h | h <;> simp [h]
-      have hmem : cfg.calls.getD i {} ∈ cfg.calls := by
-        simp [List.getD_eq_getElem?_getD, List.getElem?_eq_getElem hlt]
-      have := hres.1 _ hmem
-      rw [hact, hreq, this] at hfit
-      cases hfit
+      -- a dispatcher exists in per-call mode only
+      have hbn : cfg.block = none := by
+        cases hb : cfg.block with
+        | none => rfl
+        | some n =>
+          have := (pg_shape_block cfg hI hb).1
+          rw [hd] at this; cases this
+      have := hfit.fit i hna hbn
+      rw [hact, hreq, this] at hnofit
+      cases hnofit
     | cons e rest =>
       obtain ⟨a, sl⟩ := e
       have h0 : s.active[0]? = some (a, sl) := by simp [hact]
@@ -655,7 +659,7 @@ theorem pg_no_waitSlots (hnf : NoFail eval) (hres : WfRes cfg) {s : State Val Er
 
 /-! ### in a stuck state only the wait list holds calls -/
 
-theorem pg_cnt_waitLst (hnf : NoFail eval) (hres : WfRes cfg) {s : State Val Err} (hC : Core s)
+theorem pg_cnt_waitLst (hnf : NoFail eval) {s : State Val Err} (hfit : FitHyp cfg s) (hC : Core s)
     (hI : LiveInv cfg s) (hA : pg_Aux cfg s)
     (hsub : s.nsub + (s.script.filter isSubmit).length ≤ cfg.calls.length)
     (hst : Stuck cfg eval cancelErr s) {i : Nat} (hc : 1 ≤ cnt s i) : i ∈ s.waitLst := by
@@ -689,7 +693,7 @@ theorem pg_cnt_waitLst (hnf : NoFail eval) (hres : WfRes cfg) {s : State Val Err
     | none => simp [dispCnt]
     | some pc =>
       cases pc with
-      | waitSlots j vs req => exact (pg_no_waitSlots cfg eval cancelErr hnf hres hI hA hst hd).elim
+      | waitSlots j vs req => exact (pg_no_waitSlots cfg eval cancelErr hnf hfit hI hA hst hd).elim
       | _ => simp [dispCnt]
   -- the outer queue holds no task
   have hqo : qCnt i s.qo = 0 := by
@@ -728,7 +732,7 @@ theorem pg_cnt_waitLst (hnf : NoFail eval) (hres : WfRes cfg) {s : State Val Err
       cases hb : cfg.block with
       | some n =>
         obtain ⟨-, hlen, hall⟩ := pg_shape_block cfg hI hb
-        have hn := hres.2 n hb
+        have hn := hfit.pos n hb
         have hk : s.wk[0]? = some (s.wk[0]'(by omega)) := by simp [List.getElem?_eq_getElem]
         have hq := hall _ (pg_mem_of_getElem? hk)
         have := (pg_worker_stuck' cfg eval cancelErr hnf hI hst hk).1
@@ -740,7 +744,7 @@ theorem pg_cnt_waitLst (hnf : NoFail eval) (hres : WfRes cfg) {s : State Val Err
         obtain ⟨⟨pc, hd⟩, -⟩ := pg_shape_percall cfg hI hb
         rcases pg_disp_stuck cfg eval cancelErr hI hA hst hd with h | ⟨i', vs', req', he, -⟩ | ⟨t, ts, he, -⟩ | h | h
         · exact hne h.2
-        · subst he; exact pg_no_waitSlots cfg eval cancelErr hnf hres hI hA hst hd
+        · subst he; exact pg_no_waitSlots cfg eval cancelErr hnf hfit hI hA hst hd
         · exact hnil (pg_tookStops_disp (by simp [hd, he, dTookStop]))
         · exact hnil (pg_tookStops_disp (by simp [hd, h.1, dTookStop]))
         · exact hnil (pg_tookStops_disp (by simp [hd, h, dTookStop]))
@@ -810,7 +814,7 @@ theorem pg_coverage {s : State Val Err} (hI : LiveInv cfg s) {i : Nat} (hi : i <
   have := this i hi
   rcases hf with hf | hf <;> simpa [hf] using this
 
-theorem pg_not_active (hnf : NoFail eval) (hwf : WfCfg cfg) (hres : WfRes cfg) {s : State Val Err}
+theorem pg_not_active (hnf : NoFail eval) (hwf : WfCfg cfg) {s : State Val Err} (hfit : FitHyp cfg s)
     (hC : Core s) (hI : LiveInv cfg s) (hA : pg_Aux cfg s) (hD : pg_depOk cfg s = true)
     (hsub : s.nsub + (s.script.filter isSubmit).length ≤ cfg.calls.length)
     (hst : Stuck cfg eval cancelErr s) (i : Nat) (hi : i < s.nsub) :
@@ -820,7 +824,7 @@ theorem pg_not_active (hnf : NoFail eval) (hwf : WfCfg cfg) (hres : WfRes cfg) {
     have key : ¬ (futOf s i = .pending ∨ futOf s i = .running) := by
       intro hf
       have hc := pg_coverage cfg hI hi hf
-      have hw := pg_cnt_waitLst cfg eval cancelErr hnf hres hC hI hA hsub hst hc
+      have hw := pg_cnt_waitLst cfg eval cancelErr hnf hfit hC hI hA hsub hst hc
       have hnd := pg_waitLst_not_allDone cfg eval cancelErr hC hI hA hst hw
       have : ∃ j ∈ depsOf cfg i, (futOf s j).done = false := by
         simp only [allDone] at hnd
@@ -835,13 +839,13 @@ theorem pg_not_active (hnf : NoFail eval) (hwf : WfCfg cfg) (hres : WfRes cfg) {
       cases hfj : futOf s j <;> simp_all [Fut.done]
     exact ⟨fun h => key (Or.inl h), fun h => key (Or.inr h)⟩
 
-theorem stuck_all_done (hnf : NoFail eval) (hwf : WfCfg cfg) (hres : WfRes cfg) {s : State Val Err}
+theorem stuck_all_done (hnf : NoFail eval) (hwf : WfCfg cfg) {s : State Val Err} (hfit : FitHyp cfg s)
     (hC : Core s) (hI : LiveInv cfg s) (hA : pg_Aux cfg s) (hD : pg_depOk cfg s = true)
     (hsub : s.nsub + (s.script.filter isSubmit).length ≤ cfg.calls.length)
     (hst : Stuck cfg eval cancelErr s) : allAcceptedDone s = true := by
   simp only [allAcceptedDone, List.all_eq_true, List.mem_range]
   intro i hi
-  have := pg_not_active cfg eval cancelErr hnf hwf hres hC hI hA hD hsub hst i hi
+  have := pg_not_active cfg eval cancelErr hnf hwf hfit hC hI hA hD hsub hst i hi
   cases hf : futOf s i <;> simp_all [Fut.done]
 
 /-! ### the end of the run: nothing is parked, every consumer has exited -/
@@ -850,7 +854,7 @@ theorem stuck_all_done (hnf : NoFail eval) (hwf : WfCfg cfg) (hres : WfRes cfg) 
 structure pg_Hyp (s : State Val Err) : Prop where
   nf : NoFail eval
   wf : WfCfg cfg
-  res : WfRes cfg
+  fit : FitHyp cfg s
   core : Core s
   inv : LiveInv cfg s
   aux : pg_Aux cfg s
@@ -859,7 +863,7 @@ structure pg_Hyp (s : State Val Err) : Prop where
   stuck : Stuck cfg eval cancelErr s
 
 theorem pg_waitLst_nil {s : State Val Err} (H : pg_Hyp cfg eval cancelErr s) : s.waitLst = [] := by
-  obtain ⟨hnf, hwf, hres, hC, hI, hA, hD, hsub, hst⟩ := H
+  obtain ⟨hnf, hwf, hfit, hC, hI, hA, hD, hsub, hst⟩ := H
   cases hw : s.waitLst with
   | nil => rfl
   | cons i rest =>
@@ -885,7 +889,7 @@ theorem pg_waitLst_nil {s : State Val Err} (H : pg_Hyp cfg eval cancelErr s) : s
     have hna : futOf s i ≠ .absent := by
       rcases pg_futPre_cases hp with h | h <;> simp [h]
     have hja := pg_dep cfg hD hlt hna hj
-    have := pg_not_active cfg eval cancelErr hnf hwf hres hC hI hA hD hsub hst j (by omega)
+    have := pg_not_active cfg eval cancelErr hnf hwf hfit hC hI hA hD hsub hst j (by omega)
     cases hfj : futOf s j <;> simp_all [Fut.done]
 
 theorem pg_main_target {s : State Val Err} (hI : LiveInv cfg s) {sd : Sd} (hm : mainSd s = some sd) :
@@ -899,7 +903,7 @@ theorem pg_frontQ_ne_priv (a : Nat) : frontQ cfg ≠ .priv a := by
 
 theorem pg_main_noholds {s : State Val Err} (H : pg_Hyp cfg eval cancelErr s) {sd : Sd}
     (hm : mainSd s = some sd) : sdHolds sd = false := by
-  obtain ⟨hnf, hwf, hres, hC, hI, hA, hD, hsub, hst⟩ := H
+  obtain ⟨hnf, hwf, hfit, hC, hI, hA, hD, hsub, hst⟩ := H
   rcases pg_main_stuck cfg eval cancelErr hI hA hsub hst with ⟨h, -⟩ | ⟨sd', h, hb⟩
   · simp [mainSd, h] at hm
   · simp only [mainSd, h, Option.some.injEq] at hm
@@ -941,7 +945,7 @@ theorem pg_priv_only {s : State Val Err} (hI : LiveInv cfg s) {k a : Nat} {w : W
 theorem pg_priv_exited {s : State Val Err} (H : pg_Hyp cfg eval cancelErr s) {k a : Nat}
     {w : Worker Val Err} (hk : s.wk[k]? = some w) (hq : w.q = .priv a) : w.pc = .exited := by
   have H' := H
-  obtain ⟨hnf, hwf, hres, hC, hI, hA, hD, hsub, hst⟩ := H
+  obtain ⟨hnf, hwf, hfit, hC, hI, hA, hD, hsub, hst⟩ := H
   obtain ⟨w0, hk0, -, hone, hord, hcnt⟩ := pg_priv_of_wkOf cfg hI (pg_shape_priv cfg hI hk hq)
   have honly : ∀ (p : WPc Val Err → Bool), p w.pc = false →
       ∀ w' ∈ s.wk, (w'.q == QId.priv a && p w'.pc) = false := by
@@ -978,7 +982,7 @@ theorem pg_inner_closed {s : State Val Err} (H : pg_Hyp cfg eval cancelErr s)
     (∀ t ∈ threadsOf cfg .inner, threadEnded s t = some none) ∧ s.qi.unfin = 0 ∧
       (∀ w ∈ s.wk, w.pc = .exited) := by
   have H' := H
-  obtain ⟨hnf, hwf, hres, hC, hI, hA, hD, hsub, hst⟩ := H
+  obtain ⟨hnf, hwf, hfit, hC, hI, hA, hD, hsub, hst⟩ := H
   have hmh : ∀ sd, mainSd s = some sd → sdHolds sd = false :=
     fun sd hm => pg_main_noholds cfg eval cancelErr H' hm
   have hstops := hI.stopsInner
@@ -986,7 +990,7 @@ theorem pg_inner_closed {s : State Val Err} (H : pg_Hyp cfg eval cancelErr s)
   cases hb : cfg.block with
   | some n =>
     obtain ⟨hdn, hlen, hall⟩ := pg_shape_block cfg hI hb
-    have hn := hres.2 n hb
+    have hn := hfit.pos n hb
     simp only [hb] at hstops
     have htk : tookStops s .inner = (s.wk.filter (fun w => w.q == QId.inner && wTookStop w.pc)).length := by
       unfold tookStops; simp [hdn, dTookStop]
@@ -1066,7 +1070,7 @@ theorem pg_inner_closed {s : State Val Err} (H : pg_Hyp cfg eval cancelErr s)
         rw [hd, h.1] at htk
         simp [dTookStop] at htk
         omega
-      · subst he; exact (pg_no_waitSlots cfg eval cancelErr hnf hres hI hA hst hd).elim
+      · subst he; exact (pg_no_waitSlots cfg eval cancelErr hnf hfit hI hA hst hd).elim
       · exfalso
         have hj := hI.join
         simp only [joinOk, hd, he, Bool.and_eq_true, List.all_cons] at hj
@@ -1106,7 +1110,7 @@ theorem pg_no_worker_outer {s : State Val Err} (hI : LiveInv cfg s) (p : WPc Val
 theorem pg_outer_closed {s : State Val Err} (H : pg_Hyp cfg eval cancelErr s) (hrs : cfg.resolver = true)
     (hph : phaseOf cfg s .outer = .closed) : s.res = some .exited ∧ s.qo.unfin = 0 := by
   have H' := H
-  obtain ⟨hnf, hwf, hres, hC, hI, hA, hD, hsub, hst⟩ := H
+  obtain ⟨hnf, hwf, hfit, hC, hI, hA, hD, hsub, hst⟩ := H
   have hmh : ∀ sd, mainSd s = some sd → sdHolds sd = false :=
     fun sd hm => pg_main_noholds cfg eval cancelErr H' hm
   have hstops := hI.stopsOuter hrs
@@ -1179,14 +1183,14 @@ theorem pg_front_closed {s : State Val Err} (H : pg_Hyp cfg eval cancelErr s)
 
 theorem pg_main_finished {s : State Val Err} (H : pg_Hyp cfg eval cancelErr s) : mainFinished s = true := by
   have H' := H
-  obtain ⟨hnf, hwf, hres, hC, hI, hA, hD, hsub, hst⟩ := H
+  obtain ⟨hnf, hwf, hfit, hC, hI, hA, hD, hsub, hst⟩ := H
   rcases pg_main_stuck cfg eval cancelErr hI hA hsub hst with ⟨hm, hs⟩ | ⟨sd, hm, hb⟩
   · rcases hs with hs | ⟨j, rest, hs, hf⟩ | ⟨j, rest, hs, hf⟩
     · simp [mainFinished, hm, hs]
     · simp [mainFinished, hm, hs, hf]
     · have : futOf s j = .absent := by
         rcases Nat.lt_or_ge j s.nsub with hj | hj
-        · have := pg_not_active cfg eval cancelErr hnf hwf hres hC hI hA hD hsub hst j hj
+        · have := pg_not_active cfg eval cancelErr hnf hwf hfit hC hI hA hD hsub hst j hj
           cases hfj : futOf s j <;> simp_all [Fut.done]
         · exact hC.futWf j hj
       simp [mainFinished, hm, hs, this]
@@ -1209,7 +1213,7 @@ theorem pg_main_finished {s : State Val Err} (H : pg_Hyp cfg eval cancelErr s) :
 theorem pg_no_process {s : State Val Err} (H : pg_Hyp cfg eval cancelErr s) (hfo : s.frontOpen = false) :
     noProcessAlive s = true := by
   have H' := H
-  obtain ⟨hnf, hwf, hres, hC, hI, hA, hD, hsub, hst⟩ := H
+  obtain ⟨hnf, hwf, hfit, hC, hI, hA, hD, hsub, hst⟩ := H
   have hmf := pg_main_finished cfg eval cancelErr H'
   have hm : s.mainPc = .idle := by
     cases hmp : s.mainPc with
@@ -1240,15 +1244,39 @@ theorem pg_no_process {s : State Val Err} (H : pg_Hyp cfg eval cancelErr s) (hfo
     every accepted future is done, the user thread has executed its whole script (every shutdown
     call has returned), and — if the executor was shut down — no worker process is alive.
     Besides `LiveInv` the theorem assumes the auxiliary invariants `pg_Aux` and the run constraint
-    `pg_depOk` (an accepted call depends on accepted calls only). -/
-theorem stuck_final (hnf : NoFail eval) (hwf : WfCfg cfg) (hres : WfRes cfg) {s : State Val Err}
+    `pg_depOk` (an accepted call depends on accepted calls only).  This is the general form: about
+    requests and limits it assumes only `FitHyp cfg s` — a block allocation has a worker, and the
+    calls that were ACCEPTED in `s` fit the empty table.  `stuck_final` (every call of the program
+    fits: `WfRes`) and `stuck_final_lim` (limits only: `WfLim`, plus the invariant `AccFits`) are
+    its two instances. -/
+theorem stuck_final_fit (hnf : NoFail eval) (hwf : WfCfg cfg) {s : State Val Err} (hfit : FitHyp cfg s)
     (hC : Core s) (hI : LiveInv cfg s) (hA : pg_Aux cfg s) (hD : pg_depOk cfg s = true)
     (hsub : s.nsub + (s.script.filter isSubmit).length ≤ cfg.calls.length)
     (hst : Stuck cfg eval cancelErr s) :
     allAcceptedDone s = true ∧ mainFinished s = true ∧ (s.frontOpen = false → noProcessAlive s = true) := by
-  have H : pg_Hyp cfg eval cancelErr s := ⟨hnf, hwf, hres, hC, hI, hA, hD, hsub, hst⟩
-  exact ⟨stuck_all_done cfg eval cancelErr hnf hwf hres hC hI hA hD hsub hst,
+  have H : pg_Hyp cfg eval cancelErr s := ⟨hnf, hwf, hfit, hC, hI, hA, hD, hsub, hst⟩
+  exact ⟨stuck_all_done cfg eval cancelErr hnf hwf hfit hC hI hA hD hsub hst,
     pg_main_finished cfg eval cancelErr H, pg_no_process cfg eval cancelErr H⟩
+
+/-- `stuck_final_fit` under the per-program hypothesis `WfRes` (EVERY call of the program fits the
+    limits).  Weaker than `stuck_final_lim`, which asks nothing of the program. -/
+theorem stuck_final (hnf : NoFail eval) (hwf : WfCfg cfg) (hres : WfRes cfg) {s : State Val Err}
+    (hC : Core s) (hI : LiveInv cfg s) (hA : pg_Aux cfg s) (hD : pg_depOk cfg s = true)
+    (hsub : s.nsub + (s.script.filter isSubmit).length ≤ cfg.calls.length)
+    (hst : Stuck cfg eval cancelErr s) :
+    allAcceptedDone s = true ∧ mainFinished s = true ∧ (s.frontOpen = false → noProcessAlive s = true) :=
+  stuck_final_fit cfg eval cancelErr hnf hwf (fitHyp_of_wfRes hres (pg_len cfg hI).1) hC hI hA hD hsub hst
+
+/-- `stuck_final_fit` under the limit-level hypothesis `WfLim` (nothing is assumed of the program's
+    calls): a call too big for `max_cores` is rejected by `submit` and never reaches the dispatcher
+    (`AccFits`, an invariant of every reachable state: `accFits_reachable`). -/
+theorem stuck_final_lim (hnf : NoFail eval) (hwf : WfCfg cfg) (hl : WfLim cfg) {s : State Val Err}
+    (hF : AccFits cfg s) (hC : Core s) (hI : LiveInv cfg s) (hA : pg_Aux cfg s)
+    (hD : pg_depOk cfg s = true)
+    (hsub : s.nsub + (s.script.filter isSubmit).length ≤ cfg.calls.length)
+    (hst : Stuck cfg eval cancelErr s) :
+    allAcceptedDone s = true ∧ mainFinished s = true ∧ (s.frontOpen = false → noProcessAlive s = true) :=
+  stuck_final_fit cfg eval cancelErr hnf hwf (fitHyp_of_wfLim hl hF) hC hI hA hD hsub hst
 
 /-- the auxiliary invariants hold initially (their preservation is left to a separate file) -/
 theorem pg_aux_init (script : List Cmd) : pg_Aux cfg (init cfg script : State Val Err) := by
